@@ -102,6 +102,7 @@ func c14Setup() *c14Env {
 	msg := "larking.testpb.Message"
 	f := dynFile{Path: "verif/c14.proto", Pkg: "verif.c14", Services: []dynService{{Name: "Msvc", Methods: []dynMethod{
 		{Name: "Unary", In: msg, Out: msg, Rule: &dynRule{Verb: "GET", Tmpl: "/c14/unary"}},
+		{Name: "Down", In: msg, Out: "google.api.HttpBody", ServerStream: true, Rule: &dynRule{Verb: "GET", Tmpl: "/c14/down"}},
 	}}}}
 	fd, err := f.build()
 	if err != nil {
@@ -135,6 +136,32 @@ func c14Setup() *c14Env {
 			return nil, status.Error(codes.FailedPrecondition, "scripted failure")
 		}
 		return dynamicpb.NewMessage(out), nil
+	}, Stream: func(method string, in, out protoreflect.MessageDescriptor, ss grpc.ServerStream) error {
+		// a download written through larking.AsHTTPBodyWriter after the handler set its header metadata
+		if err := ss.RecvMsg(dynamicpb.NewMessage(in)); err != nil {
+			return err
+		}
+		if e.hdr != nil {
+			if err := ss.SetHeader(e.hdr.Copy()); err != nil {
+				return err
+			}
+		}
+		if e.trl != nil {
+			ss.SetTrailer(e.trl.Copy())
+		}
+		first := dynamicpb.NewMessage(out)
+		first.Set(out.Fields().ByName("content_type"), protoreflect.ValueOfString("application/x-c14"))
+		w, err := larking.AsHTTPBodyWriter(ss, first)
+		if err != nil {
+			return err
+		}
+		if _, err := w.Write([]byte("the bytes of the download")); err != nil {
+			return err
+		}
+		if e.fail {
+			return status.Error(codes.FailedPrecondition, "scripted failure")
+		}
+		return nil
 	}}
 	e.mux, err = dynMux([]protoreflect.FileDescriptor{fd}, impl)
 	if err != nil {
@@ -158,7 +185,15 @@ type c14TagKey struct{}
 func (c14Stats) TagRPC(ctx context.Context, _ *stats.RPCTagInfo) context.Context {
 	return context.WithValue(ctx, c14TagKey{}, true)
 }
-func (c14Stats) HandleRPC(context.Context, stats.RPCStats)                         {}
+func (c14Stats) HandleRPC(_ context.Context, st stats.RPCStats) {
+	// a logging handler that redacts its view of the request header: that view is the handler's own
+	if ih, ok := st.(*stats.InHeader); ok && ih.Header != nil {
+		for k := range ih.Header {
+			ih.Header[k] = []string{"redacted"}
+		}
+		ih.Header["x-added-by-stats"] = []string{"1"}
+	}
+}
 func (c14Stats) TagConn(ctx context.Context, _ *stats.ConnTagInfo) context.Context { return ctx }
 func (c14Stats) HandleConn(context.Context, stats.ConnStats)                       {}
 
@@ -175,6 +210,8 @@ func c14Request(proto_ string, hdrs map[string][]string) *http.Request {
 		r.Header.Set("Content-Type", "application/grpc-web+proto")
 	case "http":
 		r = httptest.NewRequest("GET", "/c14/unary", nil)
+	case "bodywriter":
+		r = httptest.NewRequest("GET", "/c14/down", nil)
 	case "twirp":
 		r = httptest.NewRequest("POST", "/verif.c14.Msvc/Unary", strings.NewReader("{}"))
 		r.Header.Set("Content-Type", "application/json")
@@ -404,6 +441,20 @@ func c14Gen(o *out, r *rng, tier string) {
 			st = "fail"
 		}
 		c14Run(o, fmt.Sprintf("C14O %s %s %s %s", p, st, encMap(h), encMap(t)))
+	}
+	// header metadata of a download written through AsHTTPBodyWriter; a trailer value that tries to continue on a new line
+	for _, k := range outKeys {
+		v := []string{"v1", "v2"}
+		if strings.HasSuffix(k, "-bin") {
+			v = []string{string([]byte{0, 1, 0xff})}
+		}
+		emitO("bodywriter", false, map[string][]string{k: v}, nil, "httpbody-writer")
+	}
+	for _, p := range protos {
+		for _, inj := range []string{"bye\r\ngrpc-status: 13", "a\ngrpc-message: forged", "x\r\nx-other: y"} {
+			emitO(p, false, map[string][]string{"x-a": {"keep"}}, map[string][]string{"x-t": {inj}}, "trailer-value-with-line-break")
+			emitO(p, true, nil, map[string][]string{"x-t": {inj}}, "trailer-value-with-line-break")
+		}
 	}
 	for _, p := range append(append([]string{}, protos...), "twirp") {
 		for _, fail := range []bool{false, true} {
